@@ -30,12 +30,12 @@ sv = z3.StringVal
 replace_all = UF('py.str.replace', StrS, StrS, StrS, StrS)
 
 
-def _helper():
+def _helper(name='make_merchant_id'):
     fi = find_function(RP + 'write_summary_file_vue')
-    mk = [n for n in ast.walk(fi.node) if isinstance(n, ast.FunctionDef) and n.name == 'make_merchant_id']
+    mk = [n for n in ast.walk(fi.node) if isinstance(n, ast.FunctionDef) and n.name == name]
     if not mk:
-        raise Unsupported('make_merchant_id not found')
-    return fi, extract.FunctionInfo(fi.qualname + '.<locals>.make_merchant_id', fi.mod, mk[0])
+        raise Unsupported('%s not found' % name)
+    return fi, extract.FunctionInfo(fi.qualname + '.<locals>.' + name, fi.mod, mk[0])
 
 
 def h_merchant_ids(ctx):
@@ -83,8 +83,36 @@ def h_merchant_ids(ctx):
     ctx.cover('make_merchant_id.returns')
 
 
+def h_section_ids(ctx):
+    """Views are keyed in the report data by make_section_id(name).  One call from ANY state of the set of ids handed out so far: the id returned was not
+    handed out before, and afterwards it is (and nothing is forgotten) - so, by induction over the views of one report, no two views share an id and none
+    replaces another.  The while loop is cut at its (empty) invariant: only the negated guard is needed."""
+    sp = Spec()
+    I = Interp(ctx, sp)
+    fi, mfi = _helper('make_section_id')
+    SetS = z3.SetSort(StrS)
+    used0 = ctx.fresh('used_section_ids', SetS)
+    init = {}
+    for st in fi.node.body:
+        if isinstance(st, ast.Assign) and len(st.targets) == 1 and isinstance(st.targets[0], ast.Name) and st.targets[0].id == 'used_section_ids':
+            init['used'] = I.eval_in(st.value, fi, {})
+    ctx.check('C12.section_id_state_starts_empty', isinstance(init.get('used'), SymSet) and init['used'].expr is None, 'property')
+    env = {'used_section_ids': SymSet(used0)}
+    for nd in ast.walk(mfi.node):
+        if isinstance(nd, ast.While):
+            from pyvc.interp import Frame, LoopSpec
+            sp.loops[(mfi.qualname, Frame(mfi, {}).loop_ordinals[id(nd)])] = LoopSpec(
+                lambda I_, e, k, it: {}, {'candidate': lambda c: c.fresh('candidate', StrS), 'n': lambda c: c.fresh('n', IntS)})
+    r = to_z3(I.call_function(mfi, [ctx.fresh('name', StrS)], closure_env=env), StrS)
+    used1 = env['used_section_ids'].expr
+    ctx.check('C12.section_ids_are_injective.new_id_is_unused', z3.Not(z3.IsMember(r, used0)), 'property')
+    ctx.check('C12.section_ids_are_injective.new_id_is_recorded_and_nothing_forgotten', used1 == z3.SetAdd(used0, r), 'property')
+    ctx.cover('make_section_id.returns')
+
+
 def harnesses(tier):
-    return [Harness('make_merchant_id', h_merchant_ids, [RP + 'write_summary_file_vue.<locals>.make_merchant_id'])]
+    return [Harness('make_merchant_id', h_merchant_ids, [RP + 'write_summary_file_vue.<locals>.make_merchant_id']),
+            Harness('make_section_id', h_section_ids, [RP + 'write_summary_file_vue.<locals>.make_section_id'])]
 
 
 # ------------------------------------------------------------------------------------------ structural clauses
@@ -180,9 +208,26 @@ def structural(tier, res):
     out.append(frames.Clause(fj.qualname + '#figures_are_stats_fields', not badj,
                              'JSON summary recomputes %s instead of reporting the analysed figures' % badj if badj else 'JSON summary copies the analysed figures', kind='auxiliary'))
     # embedding
-    ok_escape = ".replace('</', '<\\\\/')" in src and ".replace('<!--', '\\\\u003c!--')" in src and 'json.dumps(spending_data)' in src
+    # data_json = json.dumps(spending_data[, ...]).replace('</', '<\\/').replace('<!--', '\\u003c!--')   (shape read from the AST: keyword arguments of dumps are free)
+    ok_escape = False
+    for st in ast.walk(fi.node):
+        if isinstance(st, ast.Assign) and len(st.targets) == 1 and isinstance(st.targets[0], ast.Name) and st.targets[0].id == 'data_json':
+            reps, e = [], st.value
+            while isinstance(e, ast.Call) and isinstance(e.func, ast.Attribute) and e.func.attr == 'replace' and len(e.args) == 2 and all(isinstance(x, ast.Constant) for x in e.args):
+                reps.append((e.args[0].value, e.args[1].value))
+                e = e.func.value
+            is_dumps = isinstance(e, ast.Call) and ast.unparse(e.func) == 'json.dumps' and len(e.args) == 1 and ast.unparse(e.args[0]) == 'spending_data'
+            ok_escape = is_dumps and ('</', '<\\/') in reps and ('<!--', '\\u003c!--') in reps
     out.append(frames.Clause(fi.qualname + '#embedded_json_is_escaped_for_script_context', ok_escape,
                              "json.dumps(...).replace('</', '<\\/').replace('<!--', '\\u003c!--')" if ok_escape else 'the embedded JSON is not escaped for a <script> context', kind='auxiliary'))
+    # views are keyed by ids handed out by make_section_id (the proved allocator), one call per stored view
+    keys = [st.targets[0].slice for st in ast.walk(fi.node) if isinstance(st, ast.Assign) and len(st.targets) == 1 and isinstance(st.targets[0], ast.Subscript)
+            and isinstance(st.targets[0].value, ast.Name) and st.targets[0].value.id == 'sections']
+    key_names = {k.id for k in keys if isinstance(k, ast.Name)}
+    binds = [ast.unparse(st.value) for st in ast.walk(fi.node) if isinstance(st, ast.Assign) and any(isinstance(t, ast.Name) and t.id in key_names for t in st.targets)]
+    ok_keys = bool(keys) and all(isinstance(k, ast.Name) for k in keys) and bool(binds) and all(b_.startswith('make_section_id(') for b_ in binds)
+    out.append(frames.Clause(fi.qualname + '#views_are_keyed_by_allocated_ids', ok_keys, 'sections[<id>] with <id> = make_section_id(...)' if ok_keys else
+                             'a view is stored under a key that does not come from make_section_id: %s' % binds, kind='auxiliary'))
     order = [m for m in ('CSS_PLACEHOLDER', 'JS_PLACEHOLDER', 'DATA_PLACEHOLDER') if True]
     emb = src[src.rfind('else:'):] if 'else:' in src else src
     pos = [emb.find("'/* %s */'" % m) for m in order]
